@@ -121,3 +121,11 @@ META["C11"] = dict(
     note="Transport carriage between the managers is emulated by the harness bridge (mgr_test.go) following gsReqRecdHook/gsIncomingResponseHook/gsRequestUpdatedHook; real graphsync in C01.",
     technique="runtime monitoring: reference-model (2 bits per side) oracle over both managers' states + recorded transport/network calls",
 )
+
+META["C09"] = dict(
+    text=("The product status x ending x race timing is enumerated by case index (complete in the quick tier for one role, all roles in thorough); close paths are enumerated over "
+          "role x graphsync request state x close kind with PRNG cancel-send faults. Hangs are decided by virtual-time quiescence, not wall clock."),
+    design_ref="DESIGN.md §2 C09",
+    note="Trusts the environment/network/graphsync doubles; the real transport is used for the close paths.",
+    technique="runtime monitoring with fault injection: exactly-once counters on recorded cleanup/un-protect calls, quiescence-based hang detection on a virtual clock",
+)
